@@ -278,6 +278,8 @@ def fit_record(vc, rid, case):
             # ONE active linear constraint a + 1.3 b <= 1.03 in three spellings (D88)
             c = {"type": "ineq", "fun": [lambda p: -p[0] - 1.3 * p[1] + 1.03, lambda p: 1.03 - (p[0] + 1.3 * p[1]),
                                           lambda p: 1.03 - p[0] - 1.3 * p[1]][case.get("spelling", 0)]}
+        elif case.get("fixed") and "cons" in FIXED_DATA[case["fixed"]]:
+            c = {"type": "ineq", "fun": FIXED_DATA[case["fixed"]]["cons"]}
         elif case.get("fixed"):
             c = {"type": "ineq", "fun": (lambda p: p[0] + p[1])}     # a + b >= 0: inactive
         cons = c if ckind.endswith("dict") else [c]
@@ -372,6 +374,25 @@ def _inactive(bounds, ptrue):
 # DNVGL exponential shape, 8 support points, y = 2.1236 + 0.3261 exp(-0.3304 x) + small noise
 FIXED_DATA = {
     "line-active": dict(x=[1.6, 3.8, 6.5], y=[1.32, 1.74, 2.23]),
+    # fourth hunt round (recorded, known_findings.json): the constrained fit returns a point that is no local optimum
+    # (a) small-magnitude data, the constraint a + 1 >= 0 is inactive everywhere inside the bounds: a stays at its start 1
+    "exp3-smallmag": dict(x=[float(v) for v in range(1, 16)], y=[0.002 - 0.00003 * v for v in range(1, 16)],
+                          cons=lambda p: p[0] + 1.0),
+    # (b) no bounds, one linear constraint active at the optimum: a stage that hit the iteration limit is final
+    "exp3-10pts-active": dict(x=[0.5737791871576916, 2.182786185234694, 3.4173209912196274, 5.138219107028386, 7.278075626925771,
+                                 7.588736297720597, 8.40857427538906, 8.867360523679302, 9.556559088678954, 13.365524277982773],
+                              y=[1.4345672737926574, 1.5654092516030045, 1.9083539253575927, 2.315089779026837, 3.269515199183198,
+                                 2.9582950381953133, 3.0948914969820382, 3.6376538394504685, 3.600274977784251, 6.293655478869613],
+                              cons=lambda p: float(np.dot([-0.3207816452422391, -0.30991679095796526, 0.5518606367365548],
+                                                          np.asarray(p, dtype=float)) - 0.15046861822974916)),
+    # (c) bounded curve_fit of a + b / (1 + c x) on data of magnitude 100 / 1000 ends on a pole of the shape
+    "asym3-mag100": dict(x=[0.55143341, 1.07506997, 1.97943096, 2.16057808, 2.94837023, 3.42149463, 3.56564094, 6.21952321,
+                            6.42394862, 6.94394156, 7.26773212, 10.01873601, 10.74795847, 11.37079187, 11.38881188,
+                            11.41746559, 12.82145447, 13.50719995, 14.64482094, 14.81132631],
+                         y=[100 * v for v in (1.22816207489, 1.2202639067, 1.10954893408, 1.14860680603, 1.02577155725,
+                                              1.01503371738, 1.06235378795, 1.09066140667, 1.00898642768, 1.04257121636,
+                                              1.00534952197, 1.12886925658, 1.05366419793, 1.02504207297, 1.0293728285,
+                                              1.118522374, 0.99254896431, 1.02104183007, 0.918980424, 0.99726772269)]),
     "exp3-8pts": dict(x=[3.165178296821977, 4.95019434472089, 5.126942778720538, 7.206066184389611,
                          7.473320373909797, 7.616005795665915, 7.876765040064615, 7.910974208582914],
                       y=[2.23936033084433, 2.186679465146297, 2.1821759880921525, 2.152817559009799,
@@ -387,6 +408,14 @@ def fit_cases(ctx):
     for ckind in ("inactive_dict", "inactive_list"):
         out.append(dict(shape=(exp3[0], exp3[1], (2.1236, 0.3261, -0.3304), exp3[3][0], False), weights="none", cons=ckind,
                         aslist=False, fixed="exp3-8pts", n=8, noise=0.0, seed=0))
+    for ckind in ("inactive_dict", "inactive_list"):
+        out.append(dict(shape=(exp3[0], exp3[1], (0.00176, 0.0, 1.0), [(0, None), (0, None), (0.5, 1.5)], False), weights="none",
+                        cons=ckind, aslist=False, fixed="exp3-smallmag", n=15, noise=0.0, seed=0))
+    out.append(dict(shape=(exp3[0], exp3[1], (-33.15, 33.85, 0.00984), None, False), weights="none", cons="active_list", aslist=False,
+                    fixed="exp3-10pts-active", n=10, noise=0.0, seed=0))
+    asym = [sh for sh in shapes() if sh[0] == "asymdecrease3"][0]
+    out.append(dict(shape=(asym[0], asym[1], (99.86, 44.07, 1.4112609), asym[3][0], False), weights="none", cons="none", aslist=False,
+                    fixed="asym3-mag100", n=20, noise=0.0, seed=0))
     lin = [sh for sh in shapes() if sh[0] == "linear2"][0]
     for spelling in (0, 1, 2):
         for ckind in ("active_dict", "active_list"):
